@@ -582,12 +582,53 @@ class Resolver:
             if isinstance(arg, ast.Starred):
                 break
             if i < len(params):
-                self._add_ptype(g.qual, params[i], self._ty(arg, f, env))
+                self._add_ptype(g.qual, params[i], self._narrow(self._ty(arg, f, env), arg, call))
         for kw in call.keywords:
             if kw.arg is None:
                 continue
             if kw.arg in g.params or kw.arg in g.kwonly:
-                self._add_ptype(g.qual, kw.arg, self._ty(kw.value, f, env))
+                self._add_ptype(g.qual, kw.arg, self._narrow(self._ty(kw.value, f, env), kw.value, call))
+
+    ISINSTANCE_KINDS = {
+        "dict": {USERDICT},
+        "LinearConstraint": {USERLC, LINC},
+        "NonlinearConstraint": {USERNLC},
+        "Bounds": {USERBOUNDS, BOUNDSOBJ},
+    }
+
+    def _narrow(self, t, expr, node):
+        """Narrow a union type by the enclosing `isinstance(expr, C)` tests
+        (true branch: only C; false / elif branches: not C)."""
+        if not t or not isinstance(expr, (ast.Name, ast.Attribute)):
+            return t
+        txt = ast.unparse(expr)
+        child = node
+        cur = getattr(node, "_parent", None)
+        keep = None
+        drop = set()
+        while cur is not None:
+            if isinstance(cur, ast.If):
+                tst = cur.test
+                tests = tst.values if isinstance(tst, ast.BoolOp) and isinstance(tst.op, ast.And) else [tst]
+                in_body = any(child is x for x in cur.body)
+                in_else = any(child is x for x in cur.orelse)
+                for tt in tests:
+                    if isinstance(tt, ast.Call) and isinstance(tt.func, ast.Name) and tt.func.id == "isinstance" and len(tt.args) == 2 and ast.unparse(tt.args[0]) == txt:
+                        cn = ast.unparse(tt.args[1]).split(".")[-1]
+                        kinds = self.ISINSTANCE_KINDS.get(cn)
+                        if kinds is None:
+                            continue
+                        if in_body:
+                            keep = kinds if keep is None else (keep & kinds)
+                        elif in_else and not isinstance(tst, ast.BoolOp):
+                            drop |= kinds
+            child = cur
+            cur = getattr(cur, "_parent", None)
+        out = set(t)
+        if keep is not None:
+            out = {a for a in out if a in keep or a[0] != "ext"}
+        out = {a for a in out if a not in drop}
+        return frozenset(out)
 
     # -- call resolution ---------------------------------------------------
     def call_targets(self, call, f):
